@@ -74,14 +74,17 @@ class Lemma:
 class Unit:
     """One driver TU, extracted once per run."""
 
-    def __init__(self, name, cpp, defines=(), opts=None, helpers="", stubs="", std="c++11"):
+    def __init__(self, name, cpp, defines=(), opts=None, helpers="", stubs="", std="c++11", gen=None):
         self.name = name
+        self.gen = gen
         self.cpp = os.path.join(VERIF, cpp)
         self.defines = list(defines)
         self.opts = opts or {}
         self.helpers = helpers     # C text: spec helper functions (pure, used in contracts)
         self.stubs = stubs         # C text: stub declarations with assumed contracts
         self.specs = OrderedDict()
+        self.mspecs = OrderedDict()
+        self.math_models = {}
         self.lemmas = OrderedDict()
         self.stub_contracts = OrderedDict()  # name -> description (assumed)
         self.std = std
@@ -92,6 +95,13 @@ class Unit:
         s = FnSpec(name, **kw)
         self.specs[name] = s
         return s
+
+    def mfn(self, name, mode, ensures, **kw):
+        """math-back-end spec: ensures = {label: lambda P, RET, Q: z3 formula}"""
+        import mathrun
+        m = mathrun.MSpec(name, mode, ensures, **kw)
+        self.mspecs[name + "@" + mode] = m
+        return m
 
     def lemma(self, name, params, body, uses, **kw):
         l = Lemma(name, params, body, uses, **kw)
@@ -104,6 +114,8 @@ class Unit:
     # ------------------------------------------------------------ extraction
     def extract(self, workdir):
         out = os.path.join(workdir, self.name)
+        if self.gen is not None:
+            self.gen(self.cpp)
         self.clang_cmd = astload.run_clang(self.cpp, out, defines=self.defines, std=self.std)
         ast = astload.AST(out)
         self.ast = ast
@@ -138,6 +150,9 @@ class Unit:
         for did in aliases:
             tr.request(did)
         tr.run()
+        for m in self.mspecs.values():
+            if m.name not in tr.funcs:
+                raise ExtractionBreak("math spec for '%s' but no such extracted function" % m.name)
         for name in list(self.specs):
             if name not in tr.funcs and not self.specs[name].assumed:
                 raise ExtractionBreak("spec for '%s' but no such extracted function (renamed or signature changed?)" % name)
@@ -193,9 +208,16 @@ class Unit:
                     stack.append(c)
         return order
 
+    def subst_params(self, e, f):
+        if f is None or "$" not in e:
+            return e
+        names = [n for (n, _) in f.params]
+        return re.sub(r"\$(\d+)", lambda m: names[int(m.group(1))], e)
+
     def contract_text(self, spec, f, lines, with_ptr=True):
         """returns list of contract lines; `lines` collects (label) per emitted ensures line index"""
         out = []
+        S = lambda e: self.subst_params(e, f)
         if spec.ptr_requires and f is not None and with_ptr:
             for (pn, pt) in f.params:
                 if pt.kind == "ptr" and pt.to.kind != "func" and not (pt.to.kind == "builtin" and pt.to.name == "void"):
@@ -208,12 +230,12 @@ class Unit:
                     sz = "sizeof(*%s)" % pn if n is None else "(%s)*sizeof(*%s)" % (n, pn)
                     out.append("__CPROVER_requires(__CPROVER_r_ok(%s, %s))" % (pn, sz))
         for r in spec.requires:
-            out.append("__CPROVER_requires(%s)" % c_expr(r))
+            out.append("__CPROVER_requires(%s)" % c_expr(S(r)))
         for lab, e in spec.ensures.items():
             lines.append((len(out), lab))
-            out.append("__CPROVER_ensures(%s)" % c_expr(e))
+            out.append("__CPROVER_ensures(%s)" % c_expr(S(e)))
         if spec.assigns is not None:
-            out.append("__CPROVER_assigns(%s)" % ", ".join(spec.assigns))
+            out.append("__CPROVER_assigns(%s)" % ", ".join(S(x) for x in spec.assigns))
         if spec.frees is not None:
             out.append("__CPROVER_frees(%s)" % ", ".join(spec.frees))
         return out
